@@ -55,6 +55,7 @@ func parseGroups(doc *yaml.Node, schema Schema, offsetLine, offsetColumn int, co
 			}
 		}
 
+		var hasGroups bool
 		for _, entry := range mappingNodes(node) {
 			if entry.key.ShortTag() != strTag {
 				return nil, ParseError{
@@ -68,6 +69,13 @@ func parseGroups(doc *yaml.Node, schema Schema, offsetLine, offsetColumn int, co
 					Err:  fmt.Errorf("unexpected key %s", entry.key.Value),
 				}
 			}
+			if hasGroups {
+				return nil, ParseError{
+					Line: entry.key.Line,
+					Err:  fmt.Errorf("duplicated key %s", entry.key.Value),
+				}
+			}
+			hasGroups = true
 			if !isTag(entry.val.ShortTag(), seqTag) {
 				return nil, ParseError{
 					Line: entry.key.Line,
@@ -180,6 +188,22 @@ func parseGroup(node *yaml.Node, schema Schema, offsetLine, offsetColumn int, co
 			); !ok {
 				group.Error = err
 				return group
+			}
+			for _, lab := range nodes {
+				if !model.LabelName(lab.key.Value).IsValid() || lab.key.Value == model.MetricNameLabel {
+					group.Error = ParseError{
+						Line: lab.key.Line,
+						Err:  fmt.Errorf("invalid label name: %s", lab.key.Value),
+					}
+					return group
+				}
+				if !model.LabelValue(nodeValue(lab.val)).IsValid() {
+					group.Error = ParseError{
+						Line: lab.key.Line,
+						Err:  fmt.Errorf("invalid label value: %s", nodeValue(lab.val)),
+					}
+					return group
+				}
 			}
 			group.Labels = newYamlMap(entry.key, entry.val, offsetLine, offsetColumn, contentLines)
 		case "rules":
